@@ -76,7 +76,7 @@ def plan(stage, tier):
                 units.append(unit('c17::K_SWZ_FREE', 'c17s::I_FREE', 'free', t, q, L, 'xyzw', lengths=(2, 3, 4)))
     elif stage == 'operator':
         packed = [(t, 'packed_highp') for t in (ALL_TYPES if thorough else QUICK_TYPES)]
-        aligned = [(t, 'aligned_highp') for t in (SIMD_TYPES if thorough else QUICK_TYPES)]
+        aligned = [(t, 'aligned_highp') for t in SIMD_TYPES]
         if thorough:
             packed += [('float', 'packed_mediump')]
             aligned += [('float', 'aligned_mediump'), ('float', 'aligned_lowp'), ('double', 'aligned_highp'), ('int8', 'aligned_highp')]
@@ -86,9 +86,9 @@ def plan(stage, tier):
                     units.append(unit('c17::K_SWZ_OPERATOR', 'c17s::I_OPERATOR', 'operator', t, q, L, s))
         for t, q in aligned:
             for s in ('xyzw', 'rgba', 'stpq'):
-                # aligned vec2 is 8 bytes: its 3- and 4-letter swizzles would go through the 16-byte SIMD load of
-                # _swizzle_base1<L,float|int|uint,Q,...,true> (an out-of-bounds read, C20's subject) and are not generated
-                units.append(unit('c17::K_SWZ_OPERATOR', 'c17s::I_OPERATOR', 'operator', t, q, 2, s, lengths=(1, 2)))
+                # (aligned vec2 is 8 bytes: before the fix recorded under C20 its 4-letter swizzles went through the 16-byte SIMD
+                # load of _swizzle_base1<L,float|int|uint,Q,...,true>)
+                units.append(unit('c17::K_SWZ_OPERATOR', 'c17s::I_OPERATOR', 'operator', t, q, 2, s))
                 units.append(unit('c17::K_SWZ_OPERATOR', 'c17s::I_OPERATOR', 'operator', t, q, 3, s))
                 units.append(unit('c17::K_SWZ_OPERATOR', 'c17s::I_OPERATOR', 'operator', t, q, 4, s))
     else:
